@@ -209,6 +209,101 @@ fn case_generic<F: Fl>(c: &Case, obs: &mut Obs) -> PResult {
         obs.nontrivial(&("neg", F::IS32, c.conf.kind, c.conf.l().to_bits(), crate::engine::hash_of(&c.a.v64().iter().map(|x| x.to_bits()).collect::<Vec<_>>())));
     }
 
+    // ---------- negation and scaling commute with merge histories too (same tree on both sides)
+    {
+        use stats_ci::mean::StatisticsOps;
+        let codes: Vec<u16> = c.perm.iter().copied().take(6).collect();
+        let tree_a = |d: &Vec<F>, conf: &Conf| -> Out<Interval<F>> {
+            let cuts = gen::cut_points(&codes, d.len());
+            let conf = conf.get();
+            call(|| {
+                let mut acc = Arithmetic::<F>::new();
+                for (i, ch) in gen::split_at(d, &cuts).into_iter().enumerate() {
+                    let part = <Arithmetic<F> as StatisticsOps<F>>::from_iter(&ch.to_vec())?;
+                    // left folds, right folds and += alternate with the low bits of the codes
+                    match codes.get(i).map(|c| c & 3).unwrap_or(0) {
+                        0 => acc = acc + part,
+                        1 => acc = part + acc,
+                        _ => acc += part,
+                    }
+                }
+                acc.ci_mean(conf)
+            })
+        };
+        let tree_p = |x: &Vec<F>, y: &Vec<F>, conf: &Conf| -> Out<Interval<F>> {
+            let cuts = gen::cut_points(&codes, x.len());
+            let conf = conf.get();
+            call(|| {
+                let mut acc = Paired::<F>::default();
+                let (xs, ys) = (gen::split_at(x, &cuts), gen::split_at(y, &cuts));
+                for (i, (cx, cy)) in xs.into_iter().zip(ys).enumerate() {
+                    let mut part = Paired::<F>::default();
+                    part.extend(&cx.to_vec(), &cy.to_vec())?;
+                    match codes.get(i).map(|c| c & 3).unwrap_or(0) {
+                        0 => acc = acc + part,
+                        1 => acc = part + acc,
+                        _ => acc += part,
+                    }
+                }
+                acc.ci_mean(conf)
+            })
+        };
+        let tree_u = |x: &Vec<F>, y: &Vec<F>, conf: &Conf| -> Out<Interval<F>> {
+            let (cx, cy) = (gen::cut_points(&codes, x.len()), gen::cut_points(&codes, y.len()));
+            let conf = conf.get();
+            call(|| {
+                let mut acc = Unpaired::<F>::default();
+                let (xs, ys) = (gen::split_at(x, &cx), gen::split_at(y, &cy));
+                for (i, (chx, chy)) in xs.into_iter().zip(ys).enumerate() {
+                    let mut part = Unpaired::<F>::default();
+                    part.extend(&chx.to_vec(), &chy.to_vec())?;
+                    match codes.get(i).map(|c| c & 3).unwrap_or(0) {
+                        0 => acc = acc + part,
+                        1 => acc = part + acc,
+                        _ => acc += part,
+                    }
+                }
+                acc.ci_mean(conf)
+            })
+        };
+        let neg = |d: &Vec<F>| -> Vec<F> { d.iter().map(|x| -*x).collect() };
+        let fl = c.conf.flipped();
+        obs.evals(3);
+        let mut merged = 0;
+        for (name, base, negd) in [
+            ("arithmetic", tree_a(&a, &fl), tree_a(&neg(&a), &c.conf)),
+            ("paired", tree_p(&ap, &bp, &fl), tree_p(&neg(&ap), &neg(&bp), &c.conf)),
+            ("unpaired", tree_u(&a, &b_full, &fl), tree_u(&neg(&a), &neg(&b_full), &c.conf)),
+        ] {
+            match (&base, &negd) {
+                (Out::Ok(x), Out::Ok(y)) => {
+                    if let Err(msg) = negated_eq::<F>(x, y) {
+                        return crate::engine::fail(format!("C16/negation_merged/{name}/{kn}"), format!("{} (same merge tree, cut codes {codes:?}): {msg}", F::NAME));
+                    }
+                    merged += 1;
+                }
+                (Out::Err(_), Out::Err(_)) => {}
+                (x, y) => return crate::engine::fail(format!("C16/negation_merged/{name}/rejected"), format!("{} / {}", x.describe(), y.describe())),
+            }
+        }
+        if merged > 0 && !codes.is_empty() && a.len() >= 4 {
+            obs.class("negation/merge-history/bit-exact");
+        }
+        // scaling by 2^e through the same merge tree (arithmetic)
+        if let Some(e) = safe_e::<F>(&[&a, &b_full], c.e) {
+            if e != 0 && var_safe::<F>(ra.var, ra.n, e, false) {
+                let s = F::from64(pow2(e));
+                let sa: Vec<F> = a.iter().map(|x| *x * s).collect();
+                if let (Out::Ok(x), Out::Ok(y)) = (tree_a(&a, &c.conf), tree_a(&sa, &c.conf)) {
+                    if let Err(msg) = scaled_eq::<F>(&x, &y, e, 0) {
+                        return crate::engine::fail(format!("C16/scaling_merged/arithmetic/{kn}"), format!("{} (same merge tree, cut codes {codes:?}): {msg}", F::NAME));
+                    }
+                    obs.class("scaling/merge-history/bit-exact");
+                }
+            }
+        }
+    }
+
     // ---------- reordering and shift (arithmetic): need the conditioning domain
     let dof = (ra.n - 1) as f64;
     if ra.conditioned::<F>(0) {
@@ -458,7 +553,7 @@ pub fn strategy(max_n: usize) -> impl Strategy<Value = Case> {
 
 pub fn run(run: &mut Run) {
     run.technique = "proptest random search with shrinking; metamorphic relations between runs on related inputs (exact for power-of-two scaling and negation, derived tolerance for shift / reordering / geometric scaling); all permutations of small samples".into();
-    run.rule = "generated samples and pairs (f32/f64) x power-of-two exponents clamped to the range in which scaling is exact x shifts on the scale of the spread x permutations x confidences, for arithmetic, paired, unpaired, geometric and harmonic intervals; all permutations of samples of 3..6 values; non-trivial = e != 0, non-identity permutation or k != 0 on non-constant data".into();
+    run.rule = "generated samples and pairs (f32/f64) x power-of-two exponents clamped to the range in which scaling is exact x shifts on the scale of the spread x permutations x confidences, for arithmetic, paired, unpaired, geometric and harmonic intervals; all permutations of samples of 3..6 values; negation and scaling also through merge histories (same tree of +, reversed + and += on both sides); non-trivial = e != 0, non-identity permutation or k != 0 on non-constant data".into();
     crate::meanref::selftest_into(run);
     let (cases, shards, max_n) = match run.tier {
         crate::engine::Tier::Quick => (32_000u32, 32usize, 600usize),
@@ -476,7 +571,7 @@ pub fn run(run: &mut Run) {
         PermCase { f32: f32_, values: crate::fl::xs(&vals), conf }
     });
     run.prop("all_permutations", run.tier.pick(3_000, 120_000), s, perm_case);
-    for c in ["scaling/arithmetic/bit-exact", "scaling/paired/bit-exact", "scaling/unpaired/bit-exact", "scaling/harmonic", "scaling/geometric", "negation/bit-exact", "reorder/non-identity", "shift/checked", "shift/unpaired-checked", "reorder/all-permutations", "f32/two", "f32/upper", "f64/lower"] {
+    for c in ["scaling/arithmetic/bit-exact", "scaling/paired/bit-exact", "scaling/unpaired/bit-exact", "scaling/harmonic", "scaling/geometric", "negation/bit-exact", "negation/merge-history/bit-exact", "scaling/merge-history/bit-exact", "reorder/non-identity", "shift/checked", "shift/unpaired-checked", "reorder/all-permutations", "f32/two", "f32/upper", "f64/lower"] {
         run.require_class(c);
     }
     run.assumptions.push("scaling is required to be bit-exact only where no intermediate quantity leaves the normal floating-point range (data in [2^-200, 2^200] resp. [2^-25, 2^25], variance-level quantities checked from the exact statistics); other cases are counted as excluded".into());
